@@ -22,6 +22,9 @@ ALL_CONFIGS = [(1, 0), (0, 0), (2, 0), (1, 1), (0, 1), (2, 1)]  # (CONTACT_MODEL
 DEFAULT_CONFIG = (1, 0)
 
 
+_LAST_UNITS = None
+
+
 class AnalysisBroken(Exception):
     """The analysis itself could not be carried out (exit code 2): never a pass, never a violation."""
 
@@ -101,7 +104,7 @@ def _tree_key():
     return h.hexdigest()[:20]
 
 
-def extract(configs, jobs=None):
+def extract(configs, jobs=None, latent_openmp=False):
     """Returns (scratch_dir, {cfg: [json paths]}, stats). Caller removes scratch_dir."""
     if not os.path.exists(EXTRACT):
         raise AnalysisBroken("%s not built (run MANIFEST.setup_cmd: make -C /verif/tools)" % EXTRACT)
@@ -109,6 +112,8 @@ def extract(configs, jobs=None):
     scratch = tempfile.mkdtemp(prefix="sc3dlint.")
     try:
         units = compile_db(scratch)
+        global _LAST_UNITS
+        _LAST_UNITS = units
         outdir = os.path.join(scratch, "ast")
         os.makedirs(outdir)
         jobs = jobs or (os.cpu_count() or 4)
@@ -140,7 +145,54 @@ def extract(configs, jobs=None):
                 except OSError:
                     shutil.rmtree(tmp, ignore_errors=True)
         stats = {"units": len(units), "configs": [list(c) for c in configs], "extract_wall_s": round(time.time() - t0, 2)}
+        if latent_openmp:
+            # units whose library is built WITHOUT -fopenmp although their own source carries '#pragma omp' lines: the product
+            # build ignores those pragmas; a second parse with -fopenmp tells what they state (decided as "latent" by the rules)
+            lat = []
+            for u in units:
+                if "-fopenmp" in u["flags"]:
+                    continue
+                try:
+                    txt = open(u["file"]).read()
+                except OSError:
+                    continue
+                if "#pragma omp" in txt:
+                    lat.append(u)
+            stats["latent_openmp_units"] = [os.path.relpath(u["file"], REPO) for u in lat]
+            latdir = os.path.join(scratch, "ast_latent")
+            os.makedirs(latdir)
+            latres = {}
+            for c in configs:
+                repl = {}
+                for u in lat:
+                    v = dict(u, flags=list(u["flags"]) + ["-fopenmp"])
+                    out = _extract_one(v, c, latdir)
+                    repl[os.path.basename(out)] = out
+                latres[c] = [repl.get(os.path.basename(o), o) for o in res[c]] if lat else None
+            stats["_latent_paths"] = latres
         return scratch, res, stats
+    except BaseException:
+        shutil.rmtree(scratch, ignore_errors=True)
+        raise
+
+
+def extract_variant(rel_file, cfg, extra_flags):
+    """One translation unit re-extracted with additional flags (e.g. -fopenmp for a unit whose library is built without it:
+    its '#pragma omp' lines are then ignored by the product build but still state what a build with OpenMP would execute).
+    Returns (scratch_dir, json_path, had_flags). Caller removes scratch_dir."""
+    scratch = tempfile.mkdtemp(prefix="sc3dlint.var.")
+    try:
+        units = _LAST_UNITS or compile_db(scratch)      # the flags were read from the compile database earlier in this run
+        u = [x for x in units if os.path.relpath(x["file"], REPO) == rel_file]
+        if len(u) != 1:
+            raise AnalysisBroken("translation unit %s not in the compile database" % rel_file)
+        had = [f for f in extra_flags if f in u[0]["flags"]]
+        v = dict(u[0], flags=list(u[0]["flags"]) + [f for f in extra_flags if f not in u[0]["flags"]])
+        if not os.path.isdir(v["dir"]):
+            v["dir"] = scratch        # the configure directory of the main extraction is gone; cmake's include paths are absolute
+        outdir = os.path.join(scratch, "ast")
+        os.makedirs(outdir)
+        return scratch, _extract_one(v, cfg, outdir), had
     except BaseException:
         shutil.rmtree(scratch, ignore_errors=True)
         raise
